@@ -266,6 +266,9 @@ def known_shapes():
                                                                                   ("x", concat(A, commit(), B, ret(), C), False)]),
                 [("", ["A", "B", "C", "C"])]))
     # repaired defects kept as regression witnesses (must stay silent)
+    out.append(("fixed-iteration-without-progress", _g("ABCX", [("s", concat(star(paren(concat(n("r"), n("r"), n("X")))), C), False),
+                                                                  ("r", star(paren(concat(pred(1), A, B))), False)]),
+                [("", ["A", "C"]), ("", ["A", "B", "A", "B", "X", "C"]), ("", ["A"])]))
     out.append(("fixed-nameless-creation-in-attempt", _g("ABCD", [("s", n("r"), False),
                                                                    ("r", choice(concat(A, marker(1), B, create(1, None), C), concat(A, B, D)), False)]),
                 [("", ["A", "B", "D"]), ("", ["A", "B", "C"]), ("", ["A", "B"])]))
